@@ -149,6 +149,15 @@ func runCacheCase(cs cCase) []cRes {
 				}
 			case "delete_all":
 				r.Err = c.DeleteAll() != nil
+			case "delete_all_set":
+				// a Set lands while DeleteAll's first cleanup runs (the mutex is released there)
+				during = func() { c.Set(ev.K, ev.V) }
+				r.Err = c.DeleteAll() != nil
+				if during != nil {
+					f := during
+					during = nil
+					f()
+				}
 			case "prune_age":
 				c.VerifPruneAge()
 			case "prune_count":
